@@ -115,4 +115,36 @@ theorem rules_before_accept :
     (tcpAcceptPath true .allow).idxOf Step.evalRules < (tcpAcceptPath true .allow).idxOf Step.tlsAccept := by
   decide
 
+/-- **Rules behind a matching rule are irrelevant**, whatever precedes it: replacing everything
+after a rule that matches the connection leaves the verdict unchanged -/
+theorem rules_after_a_match_irrelevant (pre post post' : List Rule) (r : Rule) (ip : Addr) (rnd : Bytes)
+    (hr : r.matches ip (some rnd) = true) :
+    evaluate (pre ++ r :: post) ip (some rnd) = evaluate (pre ++ r :: post') ip (some rnd) := by
+  simp [evaluate, firstMatch, List.find?_append, hr]
+
+/-- **A catch-all deny closes the list**: a first rule without CIDR and without pattern whose action
+is deny denies every connection, with or without a client random, whatever follows it -/
+theorem catch_all_deny_first (rules : List Rule) (ip : Addr) (random : Option Bytes) :
+    evaluate (⟨.absent, none, .deny⟩ :: rules) ip random = .deny := by
+  unfold evaluate
+  split
+  · rfl
+  · simp [firstMatch, Rule.matches, Action.toVerdict]
+
+/-- ... and a trailing catch-all deny turns the default into deny: a connection no earlier rule
+matches is denied -/
+theorem catch_all_deny_last (rules : List Rule) (ip : Addr) (rnd : Bytes)
+    (h : ∀ q ∈ rules, q.matches ip (some rnd) = false) :
+    evaluate (rules ++ [⟨.absent, none, .deny⟩]) ip (some rnd) = .deny := by
+  have := first_match_wins rules ⟨.absent, none, .deny⟩ [] ip (some rnd) h (by simp [Rule.matches]) (Or.inl rfl)
+  simpa [Action.toVerdict] using this
+
+/-- without a rules engine every connection is allowed -/
+theorem no_engine_allows (ip : Option Addr) (random : Option Bytes) :
+    evaluateConnection none ip random = .allow := by
+  simp [evaluateConnection]
+
+example : evaluate [⟨.net (.v4 0x0a000000) 8, none, .allow⟩, ⟨.absent, none, .deny⟩] (.v4 0x0a010203) (some [1]) = .allow ∧
+    evaluate [⟨.net (.v4 0x0a000000) 8, none, .allow⟩, ⟨.absent, none, .deny⟩] (.v4 0x0b010203) (some [1]) = .deny := by decide
+
 end TT.Rules
